@@ -19,7 +19,7 @@ from leanio import dec_str
 from main import Result
 
 HEALTHY = ["a.txt", "b.txt", "c dir", "m.html", "z.bin"]
-FAULTS = ["dangling", "fifo", "socket", "vanish", "dotdot..name", "dot.\\bs", "back\\\\slash", ".dangling", ".fifo", "loop", "gone.html", "noperm.html", "dangling.pyg", "vanish.pyg", "loop.zip"]
+FAULTS = ["dangling", "fifo", "socket", "vanish", "dotdot..name", "dot.\\bs", "back\\\\slash", ".dangling", ".fifo", "loop", "gone.html", "noperm.html", "dangling.pyg", "vanish.pyg", "loop.zip", "latin1-dangling"]
 OPEN_FAULTS = ("gone.html", "noperm.html")     # stat succeeds, the open that follows fails (deleted in between / not readable)
 
 
@@ -28,6 +28,10 @@ def plant(tree, d, fault):
     if fault == "dangling":
         os.symlink("nowhere-to-be-found", os.path.join(base, b"dangling"))
         return "dangling"
+    if fault == "latin1-dangling":
+        # a name that is not UTF-8: it reaches log lines and error texts as lone surrogates
+        os.symlink("nowhere-to-be-found", os.path.join(base, b"caf\xe9-dangling.txt"))
+        return "caf\udce9-dangling.txt"
     if fault == ".dangling":
         os.symlink("nowhere-to-be-found", os.path.join(base, b".dangling"))
         return ".dangling"
@@ -127,6 +131,8 @@ def run(ctx):
                         tree.write(d + "/" + n, b"content\n")
                 tree.write(d + "/a.txt.abstract", b"abstract of a\n")
             planted = [plant(tree, "f", f) for f in faults]
+            # every third combination (and the non-UTF-8 name always) logs through the real file / syslog logging functions
+            pyg.LOG_THROUGH = "file" if faults == ["latin1-dangling"] else ("file", "syslog")[ci % 2] if (ci % 3 == 0 or "latin1-dangling" in faults) else None
             for hname, handlers, umn in (("umn", None, True), ("dir", pyg.DIR_HANDLERS, False), ("full", pyg.FULL_HANDLERS, True)):
                 if hname == "full" and not (ci % 3 == 0 or any(f.endswith((".pyg", ".zip")) for f in faults)):
                     continue      # the full list (ZIP, TAL, PYG, scripts, decompression) on a third of the combinations and on its own file types
@@ -158,6 +164,7 @@ def run(ctx):
                             model_lines.append(dirmodel.request(tree, cfg, "/f", names, umn=umn))
                         checks.append((inp, rows_f))
         finally:
+            pyg.LOG_THROUGH = None
             tree.close()
     # ---- histories: an entry that is unservable at one listing and servable at the next (its target appears outside the
     # directory, so the directory itself does not change), and the reverse; one server process throughout.  Each listing is
